@@ -513,6 +513,8 @@ class Universe:
                 try:
                     got = {n: self.lab(v) for n, v in ctx.get_resources(T).items()}
                 except BaseException as e:  # noqa: BLE001
+                    if m.state in ("inactive", "closed"):
+                        continue  # get_resources() on a context that is not in use is not specified: tolerate a refusal
                     got = {"<exc>": type(e).__name__}
                 exp = {c["name"]: c["v"] for (t, n), c in m.res.items() if t == tname}
                 if got != exp:
